@@ -87,7 +87,7 @@ Section B.
   Proof. apply width_nonneg. Qed.
 
   Lemma l_total_means (a r : option V) (nl : bool) (means : list V) (n : node) :
-    wf V n -> is_pm V n = true -> names_ok V n -> specs_cover V specs n -> llimits_good ->
+    wf V n -> is_pm V n = true -> specs_cover V specs n -> llimits_good ->
     prior_count V n <= List.length means ->
     (a = None \/ r = None) ->
     (forall x, a = Some x -> l_neg_sigma V L (l_abs_width V L x) = false) ->
@@ -119,7 +119,7 @@ Section B.
   Proof. apply replace_total. Qed.
 
   Lemma l_instance_kept (bin : binop -> V -> V -> V) (md : mode V) (n n' : node) (sp : list (nat * spec V)) (args : nat -> option V) :
-    wf V n -> coll_const_free V n -> keeps_ids V md -> lpass md n = Ok (n', sp) ->
+    wf V n -> keeps_ids V md -> lpass md n = Ok (n', sp) ->
     inst V bin args n' = inst V bin args n.
   Proof. apply instance_kept. Qed.
 End B.
@@ -141,17 +141,10 @@ Proof. reflexivity. Qed.
 Lemma qpass_is_lpass ninf pinf cfg specs : qpass ninf pinf cfg specs = lpass Q (qleaves ninf pinf) cfg specs.
 Proof. reflexivity. Qed.
 
-(* both facts about relative widths side by side: for r > 0 the width is negative exactly for negative values *)
-Lemma relative_width_sign (r m : Q) : (0 < r)%Q ->
-  ((0 <= m)%Q -> sigma_negative_Q (pm_rel_width_Q r m) = false /\ sigma_negative_Q (wm_relative_Q r m) = false) /\
-  ((m < 0)%Q -> sigma_negative_Q (pm_rel_width_Q r m) = true /\ sigma_negative_Q (wm_relative_Q r m) = true).
-Proof.
-  intro Hr. split; intro Hm; split.
-  - apply rel_width_nonneg; [apply Qlt_le_weak; exact Hr|exact Hm].
-  - apply wm_relative_nonneg; [apply Qlt_le_weak; exact Hr|exact Hm].
-  - apply rel_width_negative; assumption.
-  - apply wm_relative_negative; assumption.
-Qed.
+(* relative widths are never negative, whatever the sign of the value *)
+Lemma relative_width_nonneg (r m : Q) : (0 <= r)%Q ->
+  sigma_negative_Q (pm_rel_width_Q r m) = false /\ sigma_negative_Q (wm_relative_Q r m) = false.
+Proof. intro Hr. split; [apply rel_width_nonneg|apply wm_relative_nonneg]; exact Hr. Qed.
 
 Lemma rebuild_iff (V : Type) (sigma : nat -> option nat) (n : node V) : wf V n ->
   ((exists n', rebuild V sigma n = Some n') <-> (forall q, In q (prior_ids V n) -> sigma q <> None)).
